@@ -199,7 +199,7 @@ def trace_events(seed, n):
 
 
 def run(ctx: Ctx):
-    consts = dict(CX="-2..2", CY="-2..2", CZ="{0,1,3}", SW="{1,2,4}", SL="{1,2,6}", SH="{1,2}", RoiPos="0..2" if ctx.quick else "0..3", RoiSize="1..3",
+    consts = dict(CX="-2..2", CY="-2..2", CZ="{0,1,3}", SW="{1,2,4}", SL="{1,2,6}", SH="{1,2}", RoiPos="{-3,-2,0,1}" if ctx.quick else "-3..2", RoiSize="1..3",
                   Sample="70" if ctx.quick else "400")
     res = T.run_model("MC_Scores", "MCS_" + ctx.pid, consts, invariants=INV, model_values=(), tlc_kwargs=dict(dump=True, allow_violation=False, seed=ctx.seed, timeout=3000))
     ctx.add_tlc(res, "MC_Scores %s" % consts, must_take=["Next"])
